@@ -40,4 +40,81 @@ theorem mem_bitsetSelect {ρ : Type} (W : Nat) (adm : ρ → Bool) (conds : List
       exact ⟨r', ⟨⟨hr', (hrow r').mpr ⟨hadm', ⟨conds[i], List.getElem_mem hi, hsat'⟩⟩⟩, hf'⟩, rfl⟩
     · rw [hget r' i hi]; exact hsat'
 
+/-- the scheme with required bits (`req i = true`: some admitted row must satisfy condition i) and forbidden bits
+    (`req i = false`: no admitted row may satisfy condition i); the OR filter is there iff some bit is required -/
+theorem mem_bitsetSelectGen {ρ : Type} (W : Nat) (adm : ρ → Bool) (conds : List (ρ → Bool)) (req : List Bool)
+    (useOr : Bool) (having : Nat → Bool) (key : ρ → Nat) (tbl : List ρ) (hW : conds.length ≤ W)
+    (hreq : req.length = conds.length) (huse : useOr = req.any id) (hhav : ∀ x, having x = (x == bits req)) (f : Nat) :
+    f ∈ bitsetSelectGen W adm conds useOr having key tbl ↔
+      (∃ r ∈ tbl, key r = f ∧ adm r = true) ∧
+      ∀ i, (hi : i < conds.length) →
+        ((∃ r ∈ tbl, key r = f ∧ adm r = true ∧ conds[i] r = true) ↔ req.getD i false = true) := by
+  unfold bitsetSelectGen
+  simp only [List.mem_filter, List.mem_eraseDups, List.mem_map, hhav, beq_iff_eq]
+  have hlenr : ∀ v ∈ (List.filter (fun r => key r == f)
+        (List.filter (fun r => adm r && (!useOr || conds.any (fun c => c r))) tbl)).map
+        (fun r => conds.map (fun c => c r)), v.length = conds.length := by
+    intro v hvm; simp only [List.mem_map] at hvm; obtain ⟨r', _, rfl⟩ := hvm; simp
+  rw [groupOrW_eq W conds.length _ hlenr hW, having_bits_eq conds.length _ req hlenr hreq]
+  have hget : ∀ (r : ρ) (i : Nat) (hi : i < conds.length),
+      (conds.map (fun c => c r)).getD i false = conds[i] r := by
+    intro r i hi
+    simp [List.getD, List.getElem?_map, List.getElem?_eq_getElem hi]
+  -- a row satisfying a condition passes the optional OR filter
+  have hkeep : ∀ (r : ρ) (i : Nat) (hi : i < conds.length), adm r = true → conds[i] r = true →
+      (adm r && (!useOr || conds.any (fun c => c r))) = true := by
+    intro r i hi ha hc
+    have : conds.any (fun c => c r) = true := List.any_eq_true.mpr ⟨conds[i], List.getElem_mem hi, hc⟩
+    simp [ha, this]
+  -- bit i of the aggregate ⇔ an admitted row of f satisfies condition i
+  have hbit : ∀ i (hi : i < conds.length),
+      ((List.filter (fun r => key r == f)
+        (List.filter (fun r => adm r && (!useOr || conds.any (fun c => c r))) tbl)).map
+        (fun r => conds.map (fun c => c r))).any (fun v => v.getD i false) = true ↔
+      ∃ r ∈ tbl, key r = f ∧ adm r = true ∧ conds[i] r = true := by
+    intro i hi
+    simp only [List.any_map, List.any_eq_true, List.mem_filter, Function.comp, beq_iff_eq]
+    constructor
+    · rintro ⟨r, ⟨⟨hr, hw⟩, hf⟩, hb⟩
+      rw [hget r i hi] at hb
+      have ha : adm r = true := by
+        simp only [Bool.and_eq_true] at hw; exact hw.1
+      exact ⟨r, hr, hf, ha, hb⟩
+    · rintro ⟨r, hr, hf, ha, hc⟩
+      exact ⟨r, ⟨⟨hr, hkeep r i hi ha hc⟩, hf⟩, by rw [hget r i hi]; exact hc⟩
+  constructor
+  · rintro ⟨⟨r, ⟨hr, hw⟩, hf⟩, hb⟩
+    have ha : adm r = true := by
+      simp only [Bool.and_eq_true] at hw; exact hw.1
+    refine ⟨⟨r, hr, hf, ha⟩, ?_⟩
+    intro i hi
+    rw [← hbit i hi, hb i hi]
+  · rintro ⟨⟨r, hr, hf, ha⟩, hall⟩
+    refine ⟨?_, ?_⟩
+    · by_cases hu : useOr = true
+      · -- some bit is required: a row satisfying that condition is kept
+        rw [huse] at hu
+        obtain ⟨b, hb, hbt⟩ := List.any_eq_true.mp hu
+        have hbt : b = true := by simpa using hbt
+        subst hbt
+        obtain ⟨i, hi, hget'⟩ := List.getElem_of_mem hb
+        have hi' : i < conds.length := by omega
+        have : req.getD i false = true := by simp [List.getD, List.getElem?_eq_getElem hi, hget']
+        obtain ⟨r', hr', hf', ha', hc'⟩ := (hall i hi').mpr this
+        exact ⟨r', ⟨hr', hkeep r' i hi' ha' hc'⟩, hf'⟩
+      · have hu' : useOr = false := by simpa using hu
+        exact ⟨r, ⟨hr, by simp [ha, hu']⟩, hf⟩
+    · intro i hi
+      have h1 := hbit i hi
+      have h2 := hall i hi
+      cases hr' : req.getD i false with
+      | true => rw [hr'] at h2; exact h1.mpr (h2.mpr rfl)
+      | false =>
+        rw [hr'] at h2
+        cases hany : ((List.filter (fun r => key r == f)
+          (List.filter (fun r => adm r && (!useOr || conds.any (fun c => c r))) tbl)).map
+          (fun r => conds.map (fun c => c r))).any (fun v => v.getD i false) with
+        | false => rfl
+        | true => exact absurd (h2.mp (h1.mp hany)) (by simp)
+
 end Qryn.Prom.Bits
